@@ -224,6 +224,28 @@ def runs_suite(ctx: Ctx, n: int, modes: List[str]) -> None:
                 ctx.disagree("syncRun", {"spec": spec}, {"begun": order, "returned": rr.error is None}, o)
 
 
+def jd_split_step_no_join(spec: Dict[str, Any], exp: Dict[str, Any]) -> bool:
+    """Input class of the finding F-C01-split-step-no-join (same mechanism as C02's F-C02-cfw-split-step-no-join): the needed features of
+    the consumer group descend from BOTH sources, but no needed feature descends from both - every needed feature sits over one source
+    only.  The planner then attaches the link to no consumer, plans no join step, and the one consumer step (all its features share
+    group, options and framework) is handed a single source's object."""
+    if any(st["kind"] == "join" for st in exp["steps"]):
+        return False
+    sd = S.jd_sides(spec)
+    defs = {f: d for g in S.link_groups(spec) for f, d in g["features"].items()}
+    cons = spec["consumer"]["features"]
+    needed: Set[str] = set()
+    todo = [r["name"] for r in spec["request"]]
+    while todo:
+        f = todo.pop()
+        if f in needed or f not in defs:
+            continue
+        needed.add(f)
+        todo += defs[f]["parents"]
+    need_cons = [f for f in needed if f in cons]
+    return len(need_cons) >= 2 and all(len(sd[f]) == 1 for f in need_cons) and len(set().union(*[sd[f] for f in need_cons])) == 2
+
+
 def join_suite(ctx: Ctx, n: int, modes: List[str]) -> None:
     """A join in the middle of the DAG: the consumer of the join computes features over both sources and over one source only,
     and further groups run on top of it - the data of the joined object must survive until its last consumer has run."""
@@ -239,20 +261,29 @@ def join_suite(ctx: Ctx, n: int, modes: List[str]) -> None:
         exp = S.export_plan(sess)
         lp = S.lean_plan(exp)
         view = {"groups": S.link_groups(spec)}
+        split = jd_split_step_no_join(spec, exp)
         for mode in modes:
             if mode == "mp" and ctx.rng.random() > (0.2 if ctx.quick else 0.5):
                 continue
+            if split and mode != "sync":
+                continue  # the known split-step class fails deterministically; its THREADING / MP runs only cost watchdog time
             DELAYS.clear()
             if mode != "sync":
                 for g in view["groups"] + spec["sources"]:
                     DELAYS[g["name"]] = ctx.rng.choice([0, 0, 0.002, 0.01, 0.02])
-            rr = S.run_session(sess, mode, timeout=60)
+            # requests in a known MULTIPROCESSING input class may spin until the watchdog: a short cap is enough to see that
+            mp_known_shape = mode == "mp" and (S.jd_partial_right(spec) or S.jd_top_on_right_only(spec))
+            rr = S.run_session(sess, mode, timeout=15 if mp_known_shape else 60)
             obs = S.obs_of(exp, rr.events)
             case = {"spec": spec, "mode": mode, "obs": obs}
             ctx.case("join_runs", {"spec": spec, "mode": mode, "order": [i for k_, i in obs if k_ == "b"]}, bool(spec["tops"]) or len(spec["consumer"]["features"]) > 1,
                      mode=mode, outcome="error" if rr.error else "ok", tops=len(spec["tops"]), partial_right=S.jd_partial_right(spec))  # fmt: skip
             known = None
-            if S.jd_top_on_right_only(spec):
+            if jd_split_step_no_join(spec, exp):
+                known = "consumer-step-over-two-sources-without-a-feature-over-both"
+                if rr.error is None and not rr.timed_out:
+                    ctx.tag("split_step_no_join_but_ok", mode)  # not expected: would mean the class predicate is too wide
+            elif S.jd_top_on_right_only(spec):
                 known = "join-consumer-right-only-feature-consumed-later"
             elif mode == "mp" and S.jd_partial_right(spec):
                 known = "multiprocessing-join-consumer-with-right-only-feature"
